@@ -61,12 +61,14 @@ def scn_rng(T, case):
 
     pm = types.SimpleNamespace(get_plugin=lambda kind, method: Plug(kind))
     n = case["nsamplers"]
-    cfg = types.SimpleNamespace(
-        gradient=types.SimpleNamespace(seed=tuple(case["seed"]), samplers=None if n == 1 else np.array(list(range(n)) + [0], dtype=np.intc)),
-        variables=types.SimpleNamespace(mask=None),
-        samplers=tuple(types.SimpleNamespace(method="m%d" % i) for i in range(n)),
-        realization_filters=(), function_estimators=(types.SimpleNamespace(method="default"),),
-    )
+    # a complete configuration record (every section the evaluator may read when it is constructed), one objective, two realizations
+    from contracts import harness as H
+
+    nv = 1 if n == 1 else n + 1
+    cfg = H.make_config(T, 2, 1, 0, nv, weights=T.const(np.array([0.5, 0.5])), ow=T.const(np.array([1.0])), samplers=None if n == 1 else list(range(n)) + [0])
+    cfg.gradient.seed = tuple(case["seed"])
+    cfg.samplers = tuple(types.SimpleNamespace(method="m%d" % i, options={}) for i in range(n))
+    cfg.realization_filters, cfg.function_estimators = (), (types.SimpleNamespace(method="default", options={}),)
     if T.symbolic:
         sh = T.shadow([ME], stubs={(ME, "default_rng"): default_rng})
         cls = T.under_contract(sh, ME, "EnsembleEvaluator")
@@ -190,30 +192,58 @@ def cases_options(tier):
 
 
 def scn_options(T, case):
+    """Observed where the back-end is: an optimizer made by its REAL constructor is started twice; what start() hands to the SciPy
+    entry point (a recording stand-in that then does to its arguments what a back-end does: advances a generator given as seed,
+    appends to a list) is never an object of the configuration, and the configuration is the same afterwards."""
+    from contracts import C08
+
     MSC = "ropt.plugins.optimizer.scipy"
-    if T.symbolic:
-        sh = T.shadow([MSC])
-        cls = T.under_contract(sh, MSC, "SciPyOptimizer")
-        T.under_contract(sh, MSC, "SciPyOptimizer._parse_options")
-    else:
-        cls = T.func(MSC, "SciPyOptimizer")
-    stateful = np.random.default_rng(3)  # e.g. a seed option given as a generator object
-    state0 = stateful.bit_generator.state
-    options = {"seed": stateful, "nested": {"values": [1, 2]}, "zero": 0, "empty": "", "off": False}
-    opt = object.__new__(cls)
-    opt._method = case["method"]
-    opt._config = types.SimpleNamespace(optimizer=types.SimpleNamespace(options=options, max_iterations=None, output_dir=None), variables=types.SimpleNamespace(types=None))
-    out = opt._parse_options()
-    out["seed"].random(4)  # what the back-end does with it
-    out["nested"]["values"].append(3)
-    T.prove("C16.options.stateful_option_objects_are_not_shared_with_the_configuration", out["seed"] is not stateful and stateful.bit_generator.state == state0)
-    T.prove("C16.options.configured_options_are_not_modified_by_the_back_end", options["nested"] == {"values": [1, 2]} and set(options) == {"seed", "nested", "zero", "empty", "off"})
-    # every configured option reaches the back-end, falsy values included (an explicit seed of 0 is a seed)
-    T.prove("C16.options.every_configured_option_is_forwarded", out.get("zero", "missing") == 0 and out.get("empty", "missing") == "" and out.get("off", "missing") is False and "seed" in out)
-    opt2 = object.__new__(cls)
-    opt2._method = case["method"]
-    opt2._config = types.SimpleNamespace(optimizer=types.SimpleNamespace(options={"seed": 0}, max_iterations=None, output_dir=None), variables=types.SimpleNamespace(types=None))
-    T.prove("C16.options.an_explicit_seed_of_zero_is_forwarded", opt2._parse_options().get("seed", "missing") == 0)
+    handed = []
+
+    def backend(**kw):
+        handed.append(kw)
+        opts = kw.get("options") if isinstance(kw.get("options"), dict) else kw
+        if "seed" in opts and hasattr(opts["seed"], "random"):
+            opts["seed"].random(4)  # what the back-end does with it
+        if isinstance(opts.get("nested"), dict):
+            opts["nested"]["values"].append(3)
+
+    stubs = {(MSC, "minimize"): backend, (MSC, "differential_evolution"): backend}
+    saved = None
+    if not T.symbolic:
+        import importlib
+
+        real = importlib.import_module(MSC)
+        saved = {k[1]: getattr(real, k[1]) for k in stubs}
+        for k, v in stubs.items():
+            setattr(real, k[1], v)
+    try:
+        stateful = np.random.default_rng(3)  # e.g. a seed option given as a generator object
+        state0 = stateful.bit_generator.state
+        options = {"seed": stateful, "nested": {"values": [1, 2]}, "zero": 0, "empty": "", "off": False}
+        opt0, cfg, rest = C08._optimizer(T, case["method"], 2, [], [], None, options, None, stubs if T.symbolic else None, vb="finite")
+        x0 = rest[-1]
+        opt = type(opt0)(cfg, lambda *a, **k: None)
+        opt.start(x0)
+        opt.start(x0)
+        T.prove("C16.options.the_back_end_is_called_once_per_run", len(handed) == 2)
+        if len(handed) != 2:
+            return
+        outs = [kw.get("options") if isinstance(kw.get("options"), dict) else kw for kw in handed]
+        for out in outs:
+            T.prove("C16.options.stateful_option_objects_are_not_shared_with_the_configuration", out.get("seed") is not stateful and stateful.bit_generator.state == state0)
+            # every configured option reaches the back-end, falsy values included (an explicit seed of 0 is a seed)
+            T.prove("C16.options.every_configured_option_is_forwarded", out.get("zero", "missing") == 0 and out.get("empty", "missing") == "" and out.get("off", "missing") is False and "seed" in out)
+        T.prove("C16.options.configured_options_are_not_modified_by_the_back_end", options["nested"] == {"values": [1, 2]} and set(options) == {"seed", "nested", "zero", "empty", "off"})
+        del handed[:]
+        opt0b, cfg2, rest2 = C08._optimizer(T, case["method"], 2, [], [], None, {"seed": 0}, None, stubs if T.symbolic else None, vb="finite")
+        type(opt0b)(cfg2, lambda *a, **k: None).start(rest2[-1])
+        out2 = (handed[0].get("options") if isinstance(handed[0].get("options"), dict) else handed[0]) if handed else {}
+        T.prove("C16.options.an_explicit_seed_of_zero_is_forwarded", out2.get("seed", "missing") == 0)
+    finally:
+        if saved is not None:
+            for k, v in saved.items():
+                setattr(real, k, v)
 
 
 # ------------------------------------------------------------------------------------ sampler invocation order
